@@ -299,6 +299,11 @@ static Boolean DissectBitSymbol(
  * \return True if success
  * ------------------------------------------------------------------------ */
 
+/* set by DecodeBitArg(): the bit was given as an expression holding a symbol
+   that is not known yet */
+
+static Boolean BitArgFirstPassUnknown;
+
 static Boolean DecodeBitArg2(
         LongWord* pResult, tStrComp* pAddrArg, tStrComp const* pBitArg) {
     Boolean OK;
@@ -337,7 +342,8 @@ static Boolean DecodeBitArg2(
  * ------------------------------------------------------------------------ */
 
 static Boolean DecodeBitArg(LongWord* pResult, int Start, int Stop) {
-    *pResult = 0;
+    *pResult               = 0;
+    BitArgFirstPassUnknown = False;
 
     /* Just one argument -> parse as bit argument */
 
@@ -357,6 +363,7 @@ static Boolean DecodeBitArg(LongWord* pResult, int Start, int Stop) {
             if (EvalResult.OK) {
                 ChkSpace(SegBData, EvalResult.AddrSpaceMask);
             }
+            BitArgFirstPassUnknown = EvalResult.OK && mFirstPassUnknown(EvalResult.Flags);
             return EvalResult.OK;
         }
     }
@@ -947,7 +954,10 @@ static void DecodeBIT(Word Code) {
     } else {
         LongWord BitSpec;
 
-        if (DecodeBitArg(&BitSpec, 1, ArgCnt)) {
+        /* like EQU: no definition from a value that is only a first-pass
+           guess, else 'x bit x+1' counts x up by one per pass */
+
+        if (DecodeBitArg(&BitSpec, 1, ArgCnt) && !BitArgFirstPassUnknown) {
             *ListLine = '=';
             DissectBit_Padauk(ListLine + 1, STRINGSIZE - 3, BitSpec);
             PushLocHandle(-1);
